@@ -9,6 +9,17 @@ From Sfs Require Import Index ArrayM Scalar Spectrum Project Create Stat Npy Tex
 
 Extraction Blacklist List String Int Big_int_Z.
 
+(* nat, positive, N and Z are all realised by zarith integers (ExtrOcamlNatBigInt / ExtrOcamlZBigInt), so the
+   conversions between them are the identity (or a clamp at zero); without these six directives they are extracted
+   as unary recursions whose depth is the value (stack overflow beyond ~10^5). These are the only Extract
+   directives of this development besides the three standard-library files above. *)
+Extract Constant Z.of_nat => "(fun n -> n)".
+Extract Constant N.of_nat => "(fun n -> n)".
+Extract Constant N.to_nat => "(fun n -> n)".
+Extract Constant Z.to_nat => "(fun z -> Big_int_Z.max_big_int Big_int_Z.zero_big_int z)".
+Extract Constant Z.of_N => "(fun n -> n)".
+Extract Constant Z.to_N => "(fun z -> Big_int_Z.max_big_int Big_int_Z.zero_big_int z)".
+
 (* array API instantiated at Z elements (the correspondence uses integer-valued data) *)
 Definition z_sum_axis := @sum_axis Z 0%Z Z.add.
 
